@@ -104,6 +104,11 @@ pub fn check_agreement(outs: &BTreeMap<DecType, DecOut>, secp_entry: Option<Vec<
             (None, Some(v)) => cx.push(viol("C11", format!("C11/verdicts-differ/{}-accepts/{}-rejects", b.name(), a.name()), hex(&v.encoded))),
         }
     };
+    // 65-byte SEC1 keys are outside the property: the back-ends may treat them differently
+    if matches!(secp_entry, Some(ref b) if b.len() == 65) {
+        cx.stat("excluded:65-byte-key");
+        return;
+    }
     cmp(DecType::K256, DecType::Libsecp, cx);
     // CombinedKey stands on the secp256k1 entry whenever that is a valid (33-byte) key
     match secp_entry {
